@@ -165,6 +165,11 @@ func c08Scenario(p c08P, b Bounds) *Scenario {
 				peer2.Close()
 				st2 := srv.WaitStatus()
 				vs.Note("ret", "WaitStatus2", fmt.Sprintf("stopped=%v closed=%v", st2.Stopped, st2.Closed), errStr(st2.Err))
+				// the goroutines that watch pushed calls are not among those WaitStatus waits for: the callback
+				// table is judged once nothing can move any more
+				vs.AwaitQuiescence()
+				call2, okc := privLen(srv, "call")
+				vs.Note("snapshot-final", fmt.Sprintf("call=%d/%v", call2, okc))
 			}
 			check := func(x *vs.Exec) []Viol {
 				v := genericRules(x, nil)
@@ -292,8 +297,10 @@ func c08Scenario(p c08P, b Bounds) *Scenario {
 					if strings.Contains(sn.Arg(0), "used=") && !strings.HasPrefix(sn.Arg(0), "used=0/") && strings.Contains(sn.Arg(0), "/true call") {
 						v = append(v, Viol{"C08.R7", "request ids still reserved after WaitStatus: " + sn.Arg(0)})
 					}
-					if !strings.Contains(sn.Arg(0), "call=0/") && strings.HasSuffix(sn.Arg(0), "/true") {
-						v = append(v, Viol{"C08.R7", "callbacks still registered after WaitStatus: " + sn.Arg(0)})
+					if f := findEv(x, 0, "snapshot-final"); f >= 0 {
+						if a := x.Log[f].Arg(0); strings.HasSuffix(a, "/true") && a != "call=0/true" {
+							v = append(v, Viol{"C08.R7", "callbacks still registered when everything has come to rest: " + a})
+						}
 					}
 					if sn.Arg(1) != "active_delta=false" {
 						v = append(v, Viol{"C08.R7", "servers_active gauge not restored after WaitStatus"})
@@ -347,6 +354,7 @@ func c08Scenarios(tier string) []*Scenario {
 			add(c08P{Traffic: t, Cause: "stop", Stepped: true, Unblock: true, Push: true}, Bounds{1, 1, 0})
 			add(c08P{Traffic: t, Cause: "peerclose", Stepped: true, Unblock: true, Push: true}, Bounds{1, 1, 0})
 			add(c08P{Traffic: t, Cause: "stop", Unblock: false, Push: true}, Bounds{1, 2, 0})
+			add(c08P{Traffic: t, Cause: "faults", Unblock: true, Push: true}, Bounds{1, 1, 1}) // the push itself may fail to be sent
 		}
 		return out
 	}
